@@ -84,6 +84,11 @@ Theorem C14_xref_section : forall tolerant num w0 w1 w2 data_len,
   w0 + w1 + w2 < U64 -> num * (w0 + w1 + w2) < U64 -> never_crashes (xref_section_entries tolerant num w0 w1 w2 data_len).
 Proof. exact xref_section_safe. Qed.
 Print Assumptions C14_xref_section.
+Theorem C14_xref_section_i32 : forall tolerant num w0 w1 w2 data_len,
+  num <= 2147483647 -> w0 <= 2147483647 -> w1 <= 2147483647 -> w2 <= 2147483647 ->
+  never_crashes (xref_section_entries tolerant num w0 w1 w2 data_len).
+Proof. exact xref_section_i32_safe. Qed.
+Print Assumptions C14_xref_section_i32.
 Theorem C14_xref_section_cost : forall tolerant num w0 w1 w2 data_len n,
   xref_section_entries tolerant num w0 w1 w2 data_len = Ok n -> 0 < w0 + w1 + w2 -> n * (w0 + w1 + w2) <= data_len.
 Proof. exact xref_section_cost. Qed.
